@@ -19,8 +19,9 @@ from symx.core import Violation, chk
 from symx.vloop import CycleBudget, Deadlock, VLoop
 
 
-def scn(sym, cov, parties, buf, cancel=None, native=False, eager=False, T=1, J=2, keep_rx=False, cancel_by=None, close=None, behind_shield=False):
+def scn(sym, cov, parties, buf, cancel=None, native=False, eager=False, T=1, J=2, keep_rx=False, cancel_by=None, close=None, behind_shield=False, share_rx=False):
     """parties: list of program strings; buf: int | 'inf' | 'sym' (symbolic 0..2)
+    share_rx: all receiving parties use ONE receive stream object (no clones), one after the other or at the same time
     behind_shield: the cancel hits a scope AROUND a shielded scope around the party's own scope (shielded clean-up code using a
         stream): the shield holds, the party must be served exactly as if nothing had been cancelled
     keep_rx: main keeps one receive clone open until every party finished, then drains the buffer"""
@@ -73,10 +74,15 @@ def scn(sym, cov, parties, buf, cancel=None, native=False, eager=False, T=1, J=2
     async def main():
         tx0, rx0 = create_memory_object_stream(maxbuf)
         handles = {}
+        shared_rx = rx0.clone() if share_rx else None
+        if share_rx:
+            open_rx.add("shared")
         for i, prog in enumerate(parties):
             if prog[0] in "SsX":
                 handles[i] = tx0.clone()
                 open_tx.add(i)
+            elif share_rx:
+                handles[i] = shared_rx
             else:
                 handles[i] = rx0.clone()
                 open_rx.add(i)
@@ -296,9 +302,10 @@ def scn(sym, cov, parties, buf, cancel=None, native=False, eager=False, T=1, J=2
                         stats_ok("receive")
                     ended[i] = "done"
             finally:
-                rx.close()
-                open_rx.discard(i)
-                stats_ok("rx-close")
+                if not share_rx:
+                    rx.close()
+                    open_rx.discard(i)
+                    stats_ok("rx-close")
 
         async def party(i, prog, scope):
             tasks[i] = asyncio.current_task()
@@ -367,6 +374,10 @@ def scn(sym, cov, parties, buf, cancel=None, native=False, eager=False, T=1, J=2
                 if prog[0] not in "SsX":
                     state["rx_left"] -= 1
                     if state["rx_left"] == 0:
+                        if share_rx:
+                            shared_rx.close()
+                            open_rx.discard("shared")
+                            stats_ok("shared-rx-close")
                         rx_done.set()
 
         async def sink():
